@@ -1,6 +1,7 @@
 SPECIFICATION Spec
 CONSTANTS
   MaxMut = 2
+  Full = FALSE
 INVARIANT Disjoint
 INVARIANT Complete
 INVARIANT AllFields
